@@ -294,6 +294,15 @@ type fnTrans struct {
 	calls   map[string]bool       // Lean names of translated functions called
 	tmp     int
 	inRange bool // translating the body of a `for _, v := range` loop: `return e` is `pure (some e)`
+	chk     bool // the overflow-checked copy: every int / int64 addition, subtraction, multiplication, negation is GoSem.chk64
+}
+
+// arith: the result of an integer operation of type ty — reduced for uintN, range-checked in the checked copy
+func (t *fnTrans) arith(ty types.Type, s string) lexpr {
+	if uintBits(ty) == 0 && t.chk {
+		return lexpr{"(GoSem.chk64 " + s + ")", true}
+	}
+	return lexpr{wrap(ty, s), false}
 }
 
 var leanKeywords = map[string]bool{"end": true, "from": true, "at": true, "do": true, "then": true, "else": true, "if": true,
@@ -495,7 +504,7 @@ func (t *fnTrans) expr(e ast.Expr) lexpr {
 	case *ast.UnaryExpr:
 		switch x.Op {
 		case token.SUB:
-			return lexpr{wrap(tv.Type, "(-"+t.val(x.X)+")"), false}
+			return t.arith(tv.Type, "(-"+t.val(x.X)+")")
 		case token.ADD:
 			return t.expr(x.X)
 		case token.NOT:
@@ -570,22 +579,27 @@ func (t *fnTrans) expr(e ast.Expr) lexpr {
 		a, b := t.val(x.X), t.val(x.Y)
 		switch x.Op {
 		case token.ADD:
-			return lexpr{wrap(tv.Type, "("+a+" + "+b+")"), false}
+			return t.arith(tv.Type, "("+a+" + "+b+")")
 		case token.SUB:
-			return lexpr{wrap(tv.Type, "("+a+" - "+b+")"), false}
+			return t.arith(tv.Type, "("+a+" - "+b+")")
 		case token.MUL:
-			return lexpr{wrap(tv.Type, "("+a+" * "+b+")"), false}
+			return t.arith(tv.Type, "("+a+" * "+b+")")
 		case token.QUO, token.REM:
 			fn := "Int.tdiv"
 			if x.Op == token.REM {
 				fn = "Int.tmod"
 			}
 			if rv := info.Types[x.Y]; rv.Value != nil && rv.Value.Kind() == constant.Int && constant.Sign(rv.Value) != 0 {
+				if t.chk && x.Op == token.QUO && rv.Value.ExactString() == "-1" {
+					return lexpr{"(GoSem.chk64 (" + fn + " " + a + " " + b + "))", true}
+				}
 				return lexpr{"(" + fn + " " + a + " " + b + ")", false}
 			}
 			g := "GoSem.quo"
 			if x.Op == token.REM {
 				g = "GoSem.rem"
+			} else if t.chk && uintBits(tv.Type) == 0 {
+				g = "GoSem.quo64" // MinInt / -1 does not fit
 			}
 			return lexpr{"(" + g + " " + a + " " + b + ")", true}
 		case token.EQL:
@@ -742,6 +756,9 @@ func (t *fnTrans) expr(e ast.Expr) lexpr {
 			bail("call of %s (not in the list of translated functions)", qual)
 		}
 		ln := tp.unit.pre + "_" + strings.ReplaceAll(listed, ".", "_")
+		if t.chk {
+			ln += "_chk"
+		}
 		t.calls[ln] = true
 		return lexpr{"(" + ln + "@GLOBALS@ " + strings.Join(args, " ") + ")", true}
 	}
@@ -929,7 +946,12 @@ func (t *fnTrans) stmts(list []ast.Stmt, k string, depth int, nres int) string {
 			o := lhsObj(x.Lhs[0])
 			op := map[token.Token]string{token.ADD_ASSIGN: " + ", token.SUB_ASSIGN: " - ", token.MUL_ASSIGN: " * "}[x.Tok]
 			n := t.nameOf(o)
-			return ind(depth) + "let " + n + " := " + wrap(o.Type(), "("+n+op+t.val(x.Rhs[0])+")") + "\n" + t.stmts(rest, k, depth, nres)
+			ar := t.arith(o.Type(), "("+n+op+t.val(x.Rhs[0])+")")
+			arrow := " := "
+			if ar.eff {
+				arrow = " ← "
+			}
+			return ind(depth) + "let " + n + arrow + ar.s + "\n" + t.stmts(rest, k, depth, nres)
 		}
 		bail("assignment operator %s", x.Tok)
 	case *ast.IncDecStmt:
@@ -939,7 +961,12 @@ func (t *fnTrans) stmts(list []ast.Stmt, k string, depth int, nres int) string {
 		if x.Tok == token.DEC {
 			op = " - 1"
 		}
-		return ind(depth) + "let " + n + " := " + wrap(o.Type(), "("+n+op+")") + "\n" + t.stmts(rest, k, depth, nres)
+		ar := t.arith(o.Type(), "("+n+op+")")
+		arrow := " := "
+		if ar.eff {
+			arrow = " ← "
+		}
+		return ind(depth) + "let " + n + arrow + ar.s + "\n" + t.stmts(rest, k, depth, nres)
 	case *ast.DeclStmt:
 		gd := x.Decl.(*ast.GenDecl)
 		if gd.Tok != token.VAR {
@@ -1133,8 +1160,11 @@ type srcDef struct {
 	err     string
 }
 
-func translateFunc(sp *srcPkg, all map[string]*srcPkg, name string) (d srcDef) {
+func translateFunc(sp *srcPkg, all map[string]*srcPkg, name string, chk bool) (d srcDef) {
 	d.lean = sp.unit.pre + "_" + strings.ReplaceAll(name, ".", "_")
+	if chk {
+		d.lean += "_chk"
+	}
 	fd, ok := sp.decls[name]
 	if !ok {
 		d.err = "no such function in the package"
@@ -1156,7 +1186,7 @@ func translateFunc(sp *srcPkg, all map[string]*srcPkg, name string) (d srcDef) {
 			panic(r)
 		}
 	}()
-	t := &fnTrans{sp: sp, all: all, names: map[types.Object]string{}, used: map[string]int{}, globals: map[types.Object]bool{}, calls: map[string]bool{}}
+	t := &fnTrans{sp: sp, all: all, names: map[types.Object]string{}, used: map[string]int{}, globals: map[types.Object]bool{}, calls: map[string]bool{}, chk: chk}
 	var params []string
 	if fd.Recv != nil && len(fd.Recv.List) == 1 {
 		r := fd.Recv.List[0]
@@ -1225,19 +1255,24 @@ func genSrc() (string, error) {
 		order = append(order, sp)
 	}
 	defs := map[string]*srcDef{}
-	var names []string
+	var names, chkNames []string
 	for _, sp := range order {
 		for _, fn := range sp.unit.funcs {
-			d := translateFunc(sp, all, fn)
+			d := translateFunc(sp, all, fn, false)
 			dd := d
 			defs[d.lean] = &dd
 			names = append(names, d.lean)
+			// the overflow-checked copy (soft like everything here: left out silently when the plain one is)
+			c := translateFunc(sp, all, fn, true)
+			cc := c
+			defs[c.lean] = &cc
+			chkNames = append(chkNames, c.lean)
 		}
 	}
 	// a function that calls an untranslatable one is untranslatable; globals propagate along calls
 	for changed := true; changed; {
 		changed = false
-		for _, n := range names {
+		for _, n := range append(append([]string{}, names...), chkNames...) {
 			d := defs[n]
 			if d.err != "" {
 				continue
@@ -1285,6 +1320,7 @@ func genSrc() (string, error) {
 	}
 	b.WriteString("\n")
 	done := map[string]bool{}
+	quiet := false
 	var emit func(n string, stack map[string]bool)
 	emit = func(n string, stack map[string]bool) {
 		d := defs[n]
@@ -1302,8 +1338,10 @@ func genSrc() (string, error) {
 		delete(stack, n)
 		done[n] = true
 		if d.err != "" {
-			fmt.Fprintf(&b, "-- NOT TRANSLATED: %s (%s): %s\n\n", n, d.pos, d.err)
-			soft = append(soft, fmt.Sprintf("%s (%s): %s", n, d.pos, d.err))
+			if !quiet {
+				fmt.Fprintf(&b, "-- NOT TRANSLATED: %s (%s): %s\n\n", n, d.pos, d.err)
+				soft = append(soft, fmt.Sprintf("%s (%s): %s", n, d.pos, d.err))
+			}
 			return
 		}
 		text := d.text
@@ -1329,6 +1367,12 @@ func genSrc() (string, error) {
 	for _, n := range names {
 		emit(n, map[string]bool{})
 	}
+	b.WriteString("/-! ### overflow-checked copies: the same code with every int / int64 `+ - *`, negation and non-constant `/` passed\n    through GoSem.chk64 (`none` when the exact result does not fit in 64 bits) -/\n\n")
+	quiet = true
+	for _, n := range chkNames {
+		emit(n, map[string]bool{})
+	}
+	quiet = false
 	var ok []string
 	for _, n := range names {
 		if defs[n].err == "" {
